@@ -122,7 +122,8 @@ def main(argv=None):
         return do_replay(prop, a.replay, tier, a.seed)
 
     # ---- gather work
-    t1_funcs = [q for q, c in contracts.items() if set(c.get("props", [])) & set(props) and c.get("mode", "verify") == "verify"]
+    t1_funcs = [q for q, c in contracts.items() if set(c.get("props", [])) & set(props) and c.get("mode", "verify") == "verify"
+                and (tier != "quick" or not c.get("thorough_tier_only"))]   # a contract may say it is too slow for the quick tier
     assumed = {q: c for q, c in contracts.items() if set(c.get("props", [])) & set(props) and c.get("mode") == "assume"}
     lemma_names = [n for n, l in lemmas.items() if set(l.get("props", [])) & set(props)]
     drivers = []
